@@ -121,6 +121,7 @@ type Exec struct {
 	auxVars      []*Term
 	constCache   map[*ssa.Const]Value
 	pools        map[*Cell][]Value
+	evl          *eventLogT
 	cacheHits    int
 }
 
